@@ -439,6 +439,16 @@ M("C05", "rules-reversed-view", "breaking",
   "A13:server.config:ServerConfig.get_certificate_auth_config:rule-list-reshaped")
 M("C05", "benign-rules-loop-over-local-copy", "benign",
   [(CFGF, "ServerConfig.get_certificate_auth_config", "        for path_config in self.certificate_auth_paths:\n", "        configured = self.certificate_auth_paths\n        for path_config in configured:\n")])
+M("C05", "benign-rule-through-local-then-append", "benign",
+  [(CFGF, "ServerConfig.get_certificate_auth_config", "            path_rules.append(\n                CertificateAuthPathRule(\n                    prefix=path_config[\"prefix\"],\n                    require_cert=path_config.get(\"require_cert\", False),\n                    allowed_fingerprints=fingerprints,\n                )\n            )\n", "            rule = CertificateAuthPathRule(\n                prefix=path_config[\"prefix\"],\n                require_cert=path_config.get(\"require_cert\", False),\n                allowed_fingerprints=fingerprints,\n            )\n            path_rules.append(rule)\n")])
+M("C05", "benign-annotated-accumulator-positional-config", "benign",
+  [(CFGF, "ServerConfig.get_certificate_auth_config", "        path_rules = []\n", "        path_rules: list[CertificateAuthPathRule] = []\n"),
+   (CFGF, "ServerConfig.get_certificate_auth_config", "        return CertificateAuthConfig(path_rules=path_rules)\n", "        config = CertificateAuthConfig(path_rules)\n        return config\n")])
+M("C05", "benign-enumerate-loop", "benign",
+  [(CFGF, "ServerConfig.get_certificate_auth_config", "        for path_config in self.certificate_auth_paths:\n", "        for _index, path_config in enumerate(self.certificate_auth_paths):\n")])
+M("C05", "rules-deduplicated-by-prefix-set", "breaking",
+  [(CFGF, "ServerConfig.get_certificate_auth_config", "        for path_config in self.certificate_auth_paths:\n", "        seen_prefixes: set[str] = set()\n        for path_config in self.certificate_auth_paths:\n            if path_config[\"prefix\"] in seen_prefixes:\n                continue\n            seen_prefixes.add(path_config[\"prefix\"])\n")],
+  "A13:server.config:ServerConfig.get_certificate_auth_config:rule-list-reshaped")
 M("C05", "benign-regex-slash-collapse", "benign",
   [(MW, "CertificateAuth._extract_path", "        return \"/\" + posixpath.normpath(unquote(path)).lstrip(\"/\")\n", "        canonical = posixpath.normpath(unquote(path))\n        return \"/\" + canonical.lstrip(\"/\")\n")])
 
@@ -802,6 +812,11 @@ M("C16", "budget-clamped-to-one", "breaking",
   "G14:client.session:GeminiClient.__init__:budget-rewritten")
 M("C16", "benign-budget-through-local", "benign",
   [(SS, "GeminiClient.__init__", "        self.max_redirects = max_redirects\n", "        budget = max_redirects\n        self.max_redirects = budget\n")])
+M("C16", "benign-budget-annotated-store", "benign",
+  [(SS, "GeminiClient.__init__", "        self.max_redirects = max_redirects\n", "        self.max_redirects: int = max_redirects\n")])
+M("C16", "budget-conditional-on-truthiness", "breaking",
+  [(SS, "GeminiClient.__init__", "        self.max_redirects = max_redirects\n", "        self.max_redirects = max_redirects if max_redirects else MAX_REDIRECTS\n")],
+  "G14:client.session:GeminiClient.__init__:budget-rewritten")
 M("C16", "benign-for-range-idiom-rename", "benign",
   [(SS, RF, "redirect_chain", "visited", -1)])
 
